@@ -445,14 +445,26 @@ pub fn diff(a: &Snapshot, b: &Snapshot) -> BTreeMap<String, Change> {
     d
 }
 
-pub fn snap_digest(s: &Snapshot) -> u64 {
+/// Digest of a snapshot with the (per-worker) absolute world root masked out of
+/// file contents and link targets, so that digests are comparable across
+/// worker processes.
+pub fn snap_digest(s: &Snapshot, root: &str) -> u64 {
     let mut h: u64 = 0x1234_5678;
+    let rb = root.as_bytes();
     for (k, v) in s {
         h = h.rotate_left(5) ^ fnv(k.as_bytes());
         match v {
-            Node::File(b) => h = h.rotate_left(7) ^ fnv(b),
+            Node::File(b) => {
+                let has_root = !rb.is_empty() && b.windows(rb.len()).any(|w| w == rb);
+                if has_root {
+                    let t = String::from_utf8_lossy(b).replace(root, "<W>");
+                    h = h.rotate_left(7) ^ fnv(t.as_bytes())
+                } else {
+                    h = h.rotate_left(7) ^ fnv(b)
+                }
+            }
             Node::Dir => h = h.rotate_left(7) ^ 0xd1,
-            Node::Symlink(t) => h = h.rotate_left(7) ^ fnv(t.as_bytes()) ^ 0x51,
+            Node::Symlink(t) => h = h.rotate_left(7) ^ fnv(t.replace(root, "<W>").as_bytes()) ^ 0x51,
         }
     }
     h
